@@ -24,6 +24,8 @@ fn rtype(k: u8) -> EntityReactionType
 }
 
 #[kani::proof]
+#[kani::stub(core::any::TypeId::of, crate::vh::stub_typeid_of)]
+#[kani::stub(<core::any::TypeId as crate::vh::PEq>::eq, crate::vh::stub_typeid_eq)]
 #[kani::unwind(8)]
 fn ent_tracker_step()
 {
@@ -76,6 +78,8 @@ fn ent_tracker_step()
 }
 
 #[kani::proof]
+#[kani::stub(core::any::TypeId::of, crate::vh::stub_typeid_of)]
+#[kani::stub(<core::any::TypeId as crate::vh::PEq>::eq, crate::vh::stub_typeid_eq)]
 #[kani::unwind(8)]
 fn ent_tracker_witness()
 {
